@@ -157,8 +157,40 @@ func shouldInit(pkgPath string) bool {
 	return interpInitStd[pkgPath]
 }
 
+func (p *Program) FindPackage(path string) *ssa.Package {
+	for _, pkg := range p.Prog.AllPackages() {
+		if pkg.Pkg.Path() == path {
+			return pkg
+		}
+	}
+	return nil
+}
+
+// Options are the per-harness settings of an interpreter.
+type Options struct {
+	DiscoverDepth int
+	MaxDigits     int
+	MapOrderPerms bool
+	MaxSteps      int64
+}
+
+func (in *Interp) SetOptions(o Options) {
+	in.cfg.DiscoverDepth = o.DiscoverDepth
+	in.cfg.MaxDigits = o.MaxDigits
+	if o.MaxDigits == 0 {
+		in.cfg.MaxDigits = 10
+	}
+	in.cfg.MapOrderPerms = o.MapOrderPerms
+	if o.MaxSteps > 0 {
+		in.maxSteps = o.MaxSteps
+	} else {
+		in.maxSteps = in.cfg.MaxSteps
+	}
+}
+
 func (p *Program) NewInterp() (*Interp, error) {
-	cfg := p.cfg
+	cc := *p.cfg
+	cfg := &cc
 	in := &Interp{
 		prog:     p.Prog,
 		globals:  make(map[*ssa.Global]*value),
